@@ -110,7 +110,7 @@ func cmdVerify(args []string) int {
 		var jobs []solveJob
 		for _, vc := range vcs {
 			for _, o := range vc.Obls {
-				if *only != "" && !strings.Contains(o.Name, *only) {
+				if *only != "" && !strings.Contains(o.Name+"@"+o.Case, *only) {
 					o.Folded = true
 					o.Result = "skipped"
 				}
